@@ -7,7 +7,10 @@ from harness.common import coq_list, coq_Z
 def run(ctx):
     ctx.rule = ("configurations = (version range, vocab range) for each side within 1..3 / 0..1, both tub-id orders, "
                 "real Tub+Negotiation pair on an in-memory network; non-trivial = distinct configuration in which both "
-                "sides completed or failed negotiation (not a harness error); plus chunked and malformed-block runs")
+                "sides completed or failed negotiation (not a harness error); plus chunked and malformed-block runs; "
+                "damaged-line family: every 'key: value' line of every block of a recorded undamaged attempt x 7 ways of losing the "
+                "separator x both tub-id orders (fixed, no random choice), judged on the Brokers each end CREATES; the same blocks "
+                "and random headers against Negotiation.parseLines directly")
     ctx.assumptions = ["TLS is replaced by a no-op startTLS and peerFromTransport returns the peer Tub's certificate",
                        "vocab table hashes are computed by the same vocab.py on both sides (hash mismatch is exercised by "
                        "rewriting the decision block in flight); sha1 itself is not modelled: the model carries the hash as a number and "
@@ -42,11 +45,14 @@ def run(ctx):
     # 3. chunkings and malformed blocks (direct oracle)
     impl.chunked(ctx)
     impl.malformed(ctx)
+    impl.damaged_lines(ctx)
     impl.coalesced(ctx)
     impl.malformed_with_existing(ctx)
     scases = impl.splitter(ctx)
     if model_ok:
         correspond_split(ctx, scases)
+    from harness import c13_codec as _codec
+    _codec.parse_oracle(ctx)
     if not ok:
         found = len(ctx.failures) > failures_before
         ctx.fail("proof-broken", "the Coq development for C13 no longer builds against the regenerated "
@@ -259,6 +265,9 @@ def replay(ctx, data):
             impl.judge(ctx, "replay", cfg, pa, pb, res, exp if exp else False)
             ctx.case(["replay", cfg])
         else:
-            print("note: replay kind not recognised; running the malformed and coalesced families")
+            print("note: replay kind not recognised; running the malformed, damaged-line and coalesced families")
             impl.malformed(ctx)
+            impl.damaged_lines(ctx)
             impl.coalesced(ctx)
+            from harness import c13_codec as _codec
+            _codec.parse_oracle(ctx)
